@@ -12,6 +12,9 @@ pub struct ThrottledWriter {
     pub interrupts: u64,
     pub flush_lens: Vec<usize>,
     pending_interrupt: bool,
+    /// the destination refuses (with a plain error) to take more than this many bytes: a writer that sends the same
+    /// bytes again and again must end in a reported failure, not in an exhausted machine
+    pub limit: usize,
 }
 impl ThrottledWriter {
     pub fn new(sched: Vec<u16>, interrupt_every: u32) -> Self {
@@ -24,7 +27,12 @@ impl ThrottledWriter {
             interrupts: 0,
             flush_lens: Vec::new(),
             pending_interrupt: true,
+            limit: 1 << 30,
         }
+    }
+    pub fn with_limit(mut self, limit: usize) -> Self {
+        self.limit = limit;
+        self
     }
 }
 impl Write for ThrottledWriter {
@@ -41,6 +49,9 @@ impl Write for ThrottledWriter {
         }
         let cap = self.sched[(self.calls as usize) % self.sched.len()].max(1) as usize;
         let n = cap.min(b.len());
+        if self.buf.len() + n > self.limit {
+            return Err(io::Error::other(format!("destination full: {} bytes received, limit {}", self.buf.len(), self.limit)));
+        }
         if n < b.len() {
             self.partial += 1;
         }
